@@ -80,7 +80,7 @@ func (t Ty) coq() string {
 	switch t.Kind {
 	case "uint", "enum", "byte":
 		return "N"
-	case "int", "untyped":
+	case "int", "untyped", "sint":
 		return "Z"
 	case "bool":
 		return "bool"
@@ -106,6 +106,8 @@ func parseTy(s string, m *modCtx) Ty {
 		return Ty{Kind: "uint", Bits: 8}
 	case "int", "int64":
 		return Ty{Kind: "int"}
+	case "int64w": // a signed 64-bit integer whose arithmetic wraps (time.Duration): Z with swrap64
+		return Ty{Kind: "sint", Bits: 64}
 	case "bool":
 		return Ty{Kind: "bool"}
 	case "[]byte", "string":
@@ -520,6 +522,9 @@ func (e *env) binary(v *ast.BinaryExpr) exprOut {
 		if isN {
 			s = fmt.Sprintf("(%s %s)", wrapFn(t), s)
 		}
+		if t.Kind == "sint" {
+			s = fmt.Sprintf("(swrap%d %s)", t.Bits, s)
+		}
 		if t.Kind == "untyped" {
 			fail("line %d: constant folding of untyped arithmetic not supported", m.line(v.Pos()))
 		}
@@ -527,6 +532,9 @@ func (e *env) binary(v *ast.BinaryExpr) exprOut {
 	case token.SUB:
 		if isN {
 			return exprOut{binds: binds, term: fmt.Sprintf("(sub%d %s %s)", t.Bits, at, bt), ty: t}
+		}
+		if t.Kind == "sint" {
+			return exprOut{binds: binds, term: fmt.Sprintf("(swrap%d (%s - %s))", t.Bits, at, bt), ty: t}
 		}
 		return exprOut{binds: binds, term: fmt.Sprintf("(%s - %s)", at, bt), ty: t}
 	case token.QUO, token.REM:
@@ -571,6 +579,12 @@ func (e *env) call(v *ast.CallExpr) exprOut {
 		a := e.expr(v.Args[0])
 		if a.ty.Kind == "bytes" {
 			return a
+		}
+	case "time.Duration":
+		// conversion of an unsigned integer to int64: two's complement reinterpretation
+		a := e.expr(v.Args[0])
+		if a.ty.Kind == "uint" {
+			return exprOut{binds: a.binds, term: fmt.Sprintf("(swrap64 (Z.of_N %s))", a.term), ty: Ty{Kind: "sint", Bits: 64}}
 		}
 	case "binary.BigEndian.Uint16":
 		a := e.expr(v.Args[0])
@@ -1023,11 +1037,20 @@ func main() {
 			fmt.Fprintf(&m.out, "From GV Require Import %s.\n", r)
 		}
 		m.out.WriteString("Import ListNotations.\nLocal Open Scope N_scope.\nLocal Open Scope string_scope.\n\n")
-		for n, c := range mc.Consts {
-			parts := strings.SplitN(c, ":", 2)
+		var constNames []string
+		for n := range mc.Consts {
+			constNames = append(constNames, n)
+		}
+		sort.Strings(constNames)
+		for _, n := range constNames {
+			parts := strings.SplitN(mc.Consts[n], ":", 2)
 			val, _ := strconv.ParseUint(parts[0], 0, 64)
 			m.consts[n] = constInfo{val, parseTy(parts[1], m)}
-			fmt.Fprintf(&m.out, "Definition %s : %s := %d.\n", n, m.consts[n].ty.coq(), val)
+			sc := "N"
+			if m.consts[n].ty.coq() == "Z" {
+				sc = "Z"
+			}
+			fmt.Fprintf(&m.out, "Definition %s : %s := (%d)%%%s.\n", n, m.consts[n].ty.coq(), val, sc)
 		}
 		for _, ec := range mc.Enums {
 			m.loadEnum(ec)
